@@ -313,7 +313,11 @@ def zip_with_intermediate_family(seed, i):
         m1 = {"y0": list(ax0), "w": [a]} if rng.random() < 0.5 else {"w": [a], "y0": list(ax0)}
         f1 = fn("f1", ["y1"], m1, ax0)
     else:
-        f0 = fn("f0", ["y0"], {"x": [a]}, [a])
+        if rng.random() < 0.6:
+            roots["v"] = {"axes": [a], "kind": kd()}  # two ROOT arrays zipped as well
+            f0 = fn("f0", ["y0"], {"x": [a], "v": [a]}, [a])
+        else:
+            f0 = fn("f0", ["y0"], {"x": [a]}, [a])
         m1 = {"y0": [a], "w": [a]} if rng.random() < 0.5 else {"w": [a], "y0": [a]}
         f1 = fn("f1", ["y1"], m1, [a])
     funcs = [f0, f1]
